@@ -121,7 +121,7 @@ theorem stale_after_concurrent_set :
     Gen.Log.msgSetHeaderLen, Gen.Cursors.purgeOnLeader, Gen.Cursors.hwEmptyCmp, Gen.Cursors.oldestEmptyCmp,
     Gen.Cursors.oldestExitCmp, Gen.Cursors.endCodeCmp, Gen.Subscribe.readonlyStopForwardOnly, Gen.Subscribe.reverseStopRule,
     Gen.Subscribe.stopBeyondCheck, Gen.Subscribe.reverseEndStatus, Subscribe.waitForNew, CLog.assignEpochs,
-    Gen.Log.appendEpochCmp, CLog.oldest, Seg.firstOffset, statusCode, mayCache, Payload.encodable, Gen.Log.putStringLenCmp]
+    Gen.Log.appendEpochCmp, CLog.oldest, Seg.firstOffset, statusCode, mayCache, Payload.encodable, Gen.Log.putStringLenCmp, Gen.Log.headerCountCmp]
 
 /-- **What holds on the unrepaired code for concurrent histories**: the statement, provided no
 SetCursor runs while a fetch OF THE SAME KEY is between its cache lookup and its `cache.Add`
@@ -222,7 +222,7 @@ theorem C11_with_retention_asStated_false : ¬ C11_with_retention_asStated retai
       Gen.Cursors.hwEmptyCmp, Gen.Cursors.oldestEmptyCmp, Gen.Cursors.oldestExitCmp, Gen.Cursors.endCodeCmp,
       Gen.Subscribe.readonlyStopForwardOnly, Gen.Subscribe.reverseStopRule, Gen.Subscribe.stopBeyondCheck,
       Gen.Subscribe.reverseEndStatus, Subscribe.waitForNew, CLog.assignEpochs, Gen.Log.appendEpochCmp, CLog.oldest,
-      Seg.firstOffset, statusCode, mayCache, Payload.encodable, Gen.Log.putStringLenCmp]
+      Seg.firstOffset, statusCode, mayCache, Payload.encodable, Gen.Log.putStringLenCmp, Gen.Log.headerCountCmp]
   have h3 : lastSet witnessRetention k1 = some 1 := by decide
   unfold Correct at h1
   rw [h2, h3] at h1
